@@ -296,6 +296,10 @@ func originMatchesHost(c fiber.Ctx, trustedOrigins []string, trustedSubOrigins [
 		return nil
 	}
 
+	// Only the scheme and host identify the origin; never match trusted origins
+	// against a path, query or fragment.
+	origin = originURL.Scheme + "://" + originURL.Host
+
 	for _, trustedOrigin := range trustedOrigins {
 		if origin == trustedOrigin {
 			return nil
@@ -329,7 +333,9 @@ func refererMatchesHost(c fiber.Ctx, trustedOrigins []string, trustedSubOrigins 
 		return nil
 	}
 
-	referer = refererURL.String()
+	// Only the scheme and host identify the origin of the referer; never match
+	// trusted origins against its path, query or fragment.
+	referer = refererURL.Scheme + "://" + refererURL.Host
 
 	for _, trustedOrigin := range trustedOrigins {
 		if referer == trustedOrigin {
